@@ -103,13 +103,29 @@ def main():
     wfiles = ([base] if na == 1 else ["%s.%d" % (base, i) for i in range(na)]) + \
              ([base_b] if nb == 1 else ["%s.%d" % (base_b, i) for i in range(nb)])
     quotas = [(npos * 3 // 4) // na] * na + [(npos - (npos * 3 // 4) // na * na) // nb] * nb
+    # source C: TLC-generated positions that force the generator's special branches (double check, check evasion,
+    # promotions, en passant, pins): examined as they are
+    import games
+    fam_out, fam_jobs = games.run_movegen_families(chk, ["dblchk", "promo", "promopin", "evade", "ep"], nshards=16,
+                                                   density=24 if q else 4, shards=[chk.seed % 16] if q else [0, 5, 10])
+    fam_rows = []
+    for (o, pth), job in zip(fam_out, fam_jobs):
+        rows = vlib.read_ndjson(pth)
+        chk.rng.shuffle(rows)
+        fam_rows += rows[:120 if q else 2500]
+    fam_file = os.path.join(chk.outdir, "family_positions.ndjson")
+    vlib.write_ndjson(fam_file, fam_rows)
+    wfiles.append(fam_file)
+    quotas.append(len(fam_rows))
+    nwalk += 1
 
     def pick(i):
         quota = quotas[i]
         nf = max(1, -(-quota // per_file))
         ob = os.path.join(chk.outdir, "picker_%d" % i)
         o = json.loads(vlib.harness(hb, ["picker", wfiles[i], ob, "--seed", chk.seed * 31 + i, "--contents", contents,
-                                         "--loud", loud, "--files", nf, "--max-positions", quota]))
+                                         "--loud", loud, "--files", nf, "--max-positions", quota,
+                                         "--stay", 100 if wfiles[i].endswith("family_positions.ndjson") else 20]))
         return o, [ob] if nf == 1 else ["%s.%d" % (ob, k) for k in range(nf)]
     picked = vlib.pmap(pick, list(range(nwalk)), n=16)
     tfiles = [p for _, ps in picked for p in ps if os.path.getsize(p) > 0]
